@@ -315,15 +315,15 @@ Proof.
   - (* without: the +Inf bucket is appended with the overall count *)
     rewrite app_nil_r in *.
     destruct (last_opt fin) as [[lle lc]|] eqn:EL.
-    + rewrite (last_opt_finite fin (lle, lc) EL Hfin).
+    + pose proof (last_opt_finite fin (lle, lc) EL Hfin) as Hlf. cbn [fst] in Hlf. rewrite Hlf.
       assert (Htop : top fin = lc).
       { unfold top. clear - EL. destruct fin as [|y r] using rev_ind; [discriminate|].
         rewrite last_opt_snoc in EL. inversion EL; subst. rewrite map_app. simpl. apply last_last. }
       destruct cnt as [c0|]; cbv iota.
       * fold (last_opt (fin ++ [(PInf, c0)])). rewrite last_opt_snoc, Z.eqb_refl.
         rewrite removelast_last, decumulate_snoc. unfold top. reflexivity.
-      * rewrite Htop. fold (last_opt (fin ++ [(PInf, lc)])). rewrite last_opt_snoc, Z.eqb_refl.
-        rewrite removelast_last, decumulate_snoc. unfold top. reflexivity.
+      * unfold top in *. rewrite Htop. fold (last_opt (fin ++ [(PInf, lc)])). rewrite last_opt_snoc, Z.eqb_refl.
+        rewrite removelast_last, decumulate_snoc, Htop. reflexivity.
     + apply last_opt_none in EL. subst fin.
       destruct cnt as [c0|]; cbn; rewrite ?Z.eqb_refl; unfold top; cbn; rewrite ?Z.sub_0_r; reflexivity.
 Qed.
